@@ -182,3 +182,52 @@ Print Assumptions C11_history_partial.
 Example C11_history_nonvacuous : Forall query_ok c11_history /\ all_succeed rv_fixed db_new c11_history.
 Proof. exact c11_history_ok. Qed.
 Print Assumptions C11_history_nonvacuous.
+
+(* ---- all histories, UNCONDITIONALLY (supersedes C11_transaction_partial / C11_history_partial) ----
+   `traversal_live rv_fixed` is no longer a hypothesis (see Props/C10.v, C10_traversal_live; the old
+   hypothesis was false as literally stated, C10_traversal_live_refuted, so the `_partial` theorems
+   above were vacuous).  Still restricted here to histories without failing queries; ROLLED-BACK
+   queries and transactions are covered by C13_history_atomic (Props/C13.v): Inv — hence idx_inv, the
+   exact answer of every index search and the exact listing (C11_inv_exact) — holds after EVERY history. *)
+From Agdb Require Import TraversalLiveProofs DbInvariantProofs.
+
+Theorem C11_transaction :
+  forall d qs acc, Forall query_ok qs -> Inv d -> idx_inv (fst (fst (txn_run rv_fixed d qs acc))).
+Proof. intros d qs acc Hq Hd. apply Inv_index. now apply transaction_state_Inv_fixed. Qed.
+Print Assumptions C11_transaction.
+
+(* what the invariant means for every index read, in any state satisfying it *)
+Theorem C11_inv_exact :
+  forall d, Inv d ->
+  idx_inv d /\
+  (forall key ids value id, idx_find (indexes d) key = Some ids ->
+     count_occ Z.eq_dec (map snd (filter (fun p : dbvalue * Z => dbv_eqb (fst p) value) ids)) id =
+     if live d id then match kvs_value (vals d) id key with
+                       | Some v' => b2nat (dbv_eqb v' value)
+                       | None => 0%nat
+                       end
+     else 0%nat) /\
+  (forall rv, exec_select rv d SelectIndexes =
+    QOk (lenZ (indexes d))
+        [ {| e_id := 0; e_from := 0; e_to := 0;
+             e_values := map (fun ix : index => (fst ix, DU64 (N.of_nat (count_having d (fst ix))))) (indexes d) |} ]).
+Proof. exact Inv_indexes. Qed.
+Print Assumptions C11_inv_exact.
+
+Theorem C11_history :
+  forall qs, Forall query_ok qs -> all_succeed rv_fixed db_new qs ->
+  let d := exec_all rv_fixed db_new qs in
+  idx_inv d /\
+  (forall key ids value id, idx_find (indexes d) key = Some ids ->
+     count_occ Z.eq_dec (map snd (filter (fun p : dbvalue * Z => dbv_eqb (fst p) value) ids)) id =
+     if live d id then match kvs_value (vals d) id key with
+                       | Some v' => b2nat (dbv_eqb v' value)
+                       | None => 0%nat
+                       end
+     else 0%nat) /\
+  exec_select rv_fixed d SelectIndexes =
+    QOk (lenZ (indexes d))
+        [ {| e_id := 0; e_from := 0; e_to := 0;
+             e_values := map (fun ix : index => (fst ix, DU64 (N.of_nat (count_having d (fst ix))))) (indexes d) |} ].
+Proof. exact history_indexes_fixed. Qed.
+Print Assumptions C11_history.
